@@ -335,7 +335,9 @@ pub fn run(scn: &MScn, oracles: &[Oracle], out: &mut Outcome, fp: &mut Fp, tr: &
                         } else if has(Oracle::Interrupts) {
                             info.pending_any || info.took_interrupt.is_some()
                         } else if has(Oracle::Protection) {
-                            pre_user_checked && (matches!(info.class, "fetch-acv" | "data-acv") || (info.class == "RTI") || c == "kb-queue" || c == "display" || c == "mcr" || c == "psr")
+                            (pre_user_checked && (matches!(info.class, "fetch-acv" | "data-acv") || (info.class == "RTI") || c == "kb-queue" || c == "display" || c == "mcr" || c == "psr"))
+                                // the mode an RTI returns to is what every later protection decision rests on
+                                || (info.rti && c == "psr" && (w.sim.psr().get() ^ m.psr) & 0x8000 != 0)
                         } else {
                             false
                         };
